@@ -618,8 +618,18 @@ impl DtlsInner {
                 }
             }
             ContentType::Handshake => {
-                self.process_handshake_payload(payload, ctx, certificate, is_client)
-                    .await?;
+                if epoch == 0 && ctx.session_keys.is_some() {
+                    // Once keys are negotiated everything new the peer sends is
+                    // protected: its next messages are ChangeCipherSpec and the
+                    // encrypted Finished. A plaintext handshake record can then only
+                    // be a late copy of an earlier flight - or a forgery; taking it
+                    // for the next message (a Finished that fails verification) would
+                    // let anyone tear the connection down.
+                    warn!("Ignoring unauthenticated (epoch 0) Handshake record after key negotiation");
+                } else {
+                    self.process_handshake_payload(payload, ctx, certificate, is_client)
+                        .await?;
+                }
             }
             ContentType::Alert => {
                 trace!("Received Alert: {:?}", payload);
